@@ -102,7 +102,7 @@ PROPERTIES = {
                        'natively under a timeout) and the integer-run loop of the scrubber (S4/S6, bounded) - all other loops are '
                        'for-loops over sequences that are not modified in the body; recursion is over the nesting of the settings '
                        'argument with a cycle check (S2).  Bounded stand-in E2 (native enumeration, not a proof): all histories '
-                       'of 2/3 operations out of 58 public calls on 8 start values.',
+                       'of 2/3 operations out of 58 public calls on 9 start values.',
         'trusted_base': ['wf / owns_lists in contracts/spec.py', 'the induction over histories is an argument on paper: each step is a '
                          'discharged obligation, the composition is not machine-checked'],
         'assumptions': ['operations not under a wf contract of their own (title/capitalize/... rewrite only the text: X2c; join, '
@@ -136,7 +136,7 @@ PROPERTIES = {
                         'encode, __eq__, isascii/startswith (not listed in the property) are not covered'],
     },
     'C11': {
-        'groups': ['G3', 'X2c', 'X3', 'X4p', 'X4r', 'X5', 'X6', 'X6u', 'X7', 'X8', 'Y3'],
+        'groups': ['G3', 'X2c', 'X3', 'X4p', 'X4r', 'X5', 'X6', 'X6u', 'X7', 'X8', 'Y3', 'Z2'],
         'level': 'other',
         'explanation': 'Every piece returned by split/rsplit (with separator: X5 unbounded up to 3 pieces; whitespace: X8), splitlines '
                        '(X8), partition/rpartition (X4p), strip family (X3), removeprefix/removesuffix (X4r) reports for each of its '
@@ -249,7 +249,7 @@ PROPERTIES = {
         'assumptions': ['surrounding texts contain no ESC in P3'],
     },
     'C16': {
-        'groups': ['H1', 'F3', 'M2', 'SL'],
+        'groups': ['H1', 'F3', 'M2', 'SL', 'Z2'],
         'level': 'other',
         'explanation': 'Unbounded in text, pattern, settings, count, flags and table (abstract table; re.finditer / re.escape '
                        'uninterpreted functions of all their arguments, results of up to 3 matches): format_matching / '
@@ -262,7 +262,7 @@ PROPERTIES = {
         'assumptions': ['re.finditer results longer than 3 matches are not enumerated (bounded)'],
     },
     'C17': {
-        'groups': ['N1', 'N2', 'SL'],
+        'groups': ['N1', 'N2', 'SL', 'Z2'],
         'level': 'other',
         'explanation': 'ansi_settings_at(i) is the abstraction function itself ([] outside 0..len-1, else the active objects in '
                        'order, as a new list) and settings_at(i) the ";"-join of their texts; find_settings is checked against the '
